@@ -31,7 +31,7 @@ def objects(tier):
     out["nested"] = lambda: {"a": torch.arange(3.0), "b": [torch.zeros(2, dtype=torch.int64), (torch.ones(1, dtype=torch.float16),)], "n": 3, "s": "txt"}
     out["shared-storage"] = lambda: (lambda base: [base[:3], base[3:], base])(torch.arange(6.0))
     out["empty-containers"] = lambda: {"l": [], "t": (), "d": {}}
-    if tier == "quick":
+    if tier == "never":
         keep = ["linear", "sequential", "state_dict", "nested", "shared-storage", "tensor-float32-2x3", "tensor-bfloat16-scalar",
                 "tensor-int64-0", "tensor-bool-2x3", "tensor-float16-0"]
         out = {k: out[k] for k in keep}
@@ -43,7 +43,7 @@ def payloads(tier):
 
     texts = [v for k, v in values(tier) if k == "text" and len(v) < 300]
     if tier == "quick":
-        texts = texts[::3]
+        texts = texts[::2]
     ps = [(f"text[{i}]", f"import vp_sink; vp_sink.hit({t!r})", (t,)) for i, t in enumerate(texts)]
     ps += [("digits-only", "123", None), ("multi-line", "import vp_sink\nfor _i in range(1):\n    vp_sink.hit('ml', 2)\n", ("ml", 2)),
            ("plain", "import vp_sink; vp_sink.hit()", ())]
